@@ -508,6 +508,9 @@ macro_rules! define_frost_core { () => {
             // that the public key matches it, because this was already
             // verified when decoding.
 
+            if vsscomm.is_empty() {
+                return false;
+            }
             let mut Q = vsscomm[0].0;
             let k = self.ident;
             let mut z = k;
